@@ -12,11 +12,9 @@ RULE = ('decks without universes whose cells partition space by construction (ra
         'included, structural validity of the file) and model (Lean Layer-B model vs code on pot_complement, the '
         'conversion loop and the post-processing, canonical volume terms). Non-trivial = at least two cells; '
         'distinct = distinct (deck text, options).')
-NOT_PROVED = ['that the dictionary built by the conversion loop has no dangling reference (hypothesis Closed of '
-              'postProcess_preserves; unique keys hold by construction of a Python dict): not carried through the '
-              'mutual induction of the volume compiler — checked at run time on every dictionary captured from the code '
-              '(model stream) instead',
-              'the link surface senses ↔ geometry (surfValOf / GeomLaws) is the subject of C02–C04']
+NOT_PROVED = ['the link surface senses ↔ geometry (surfValOf / GeomLaws) is the subject of C02–C04',
+              'universes/FILL/lattices (C05–C07) and the text layer (C11, C14) are outside these theorems: the point monitor '
+              'covers them end to end']
 ASSUMPTIONS = ['sample points closer than 1e-6 (in |f|) to a surface are skipped']
 
 
